@@ -228,11 +228,31 @@ Section Coherence.
     NoDup (map fst (ws_upload st)) ->
     NoDup (map fst (ws_upload (fst (step R enc dec proj ord pos it lts ltg cfg st o)))).
   Proof.
-    intro H. destruct o as [n d|n|n|k|date|s e]; cbn [step fst ws_upload]; try exact H.
+    intro H. destruct o as [n d|n|n|k|date|s e|s e fd k]; cbn [step fst ws_upload]; try exact H.
     - apply b_put_nodup. exact H.
     - unfold b_del. apply NoDup_map_filter. exact H.
     - unfold do_merge. destruct (merge R enc dec (day_objects ord pos st date)) as [[file count] ok]. exact H.
     - unfold do_chart. destruct (handle_chart it lts ltg cfg (read_state_day R dec proj st) s e); exact H.
+    - unfold do_chart_fault.
+      destruct (handle_chart_fault it lts ltg (Some (fd, k)) cfg (read_state_day R dec proj st) s e); exact H.
+  Qed.
+
+  (* a /chart/ request hit by a read fault on a day of the range whose merged
+     object exists fails and leaves every bucket, the chart object included, as it was *)
+  Theorem chart_fault_leaves_state st s e fd k :
+    (s <= fd <= e)%Z -> read_state_day R dec proj st fd <> RNotFound ->
+    exists r, step R enc dec proj ord pos it lts ltg cfg st (OpChartFault s e fd k) = (st, RespChart r) /\
+              forall name cd, r <> ChartOk name cd.
+  Proof.
+    intros Hfd Hnf. cbn [step]. unfold do_chart_fault.
+    destruct (chart_read_fault_is_error it lts ltg cfg (read_state_day R dec proj st) s e (Some (fd, k))) as [_ Hf].
+    specialize (Hf fd k eq_refl Hfd Hnf).
+    destruct (handle_chart_fault it lts ltg (Some (fd, k)) cfg (read_state_day R dec proj st) s e) as [name cd| | | |] eqn:E.
+    - exfalso. exact (Hf name cd eq_refl).
+    - eexists. split; [reflexivity | discriminate].
+    - eexists. split; [reflexivity | discriminate].
+    - eexists. split; [reflexivity | discriminate].
+    - eexists. split; [reflexivity | discriminate].
   Qed.
 
   Lemma run_ops_upload_nodup ops : forall st,
